@@ -138,6 +138,11 @@ scen("C01", "selector-child-and-descendant-mix", nest("<div class=c1><p>", 60, i
      [one("OneShotColoured", 60)], note="boundary case for 9f192f7: child combinators still need the other ancestors")
 scen("C01", "nested-strikeout-cubic", nest("<s>a", 8000, inner="b"), cfg("Plain"), [one("OneShotString", 40)],
      note="fixed e847a0f: one strikeout filter per nesting level")
+scen("C01", "nth-child-coefficient-beyond-i32", "<style>:nth-child(0):nth-child(2474836647n+2){color:red;}</style><p>x",
+     cfg("Rich", use_doc_css=True), staged("RenderLines", 20), note="fixed (nth-child fix): unwrap of a failed i32 parse")
+scen("C01", "nth-child-b-near-i32-min", "<ul><li>a<li>b</ul>",
+     cfg("Rich", css=[{"agent": False, "text": "li:nth-child(n-2147483647){color:red;}"}]), [one("OneShotLines", 20)],
+     note="fixed (nth-child fix): idx - b overflowed while matching")
 scen("C01", "hard-error-at-every-stage", "<p>hello <b>world</b></p>" * 300, cfg("Plain"),
      [one("OneShotString", 40, plan([{"Data": 100}, "Eintr"], err_at=[4096, "ConnectionReset"])),
       one("OneShotLines", 40, plan(err_at=[0, "WouldBlock"])),
